@@ -60,6 +60,7 @@ def make_target(table):
             self.armed = None
             self.kept = None
             self.unser_n = 0
+            self.gen_n_ = 0
 
         def __getattr__(self, name):
             # a delegating wrapper: names this object does not have are answered by the wrapped one (here: it has nothing to say)
@@ -111,7 +112,26 @@ def make_target(table):
             def streamer():
                 yield 1
                 raise self._build(spec)
-            return streamer()
+            self.gen_n = n = getattr(self, "gen_n_", 0) + 1
+            self.gen_n_ = n
+            if n % 2:
+                return streamer()
+            target = self
+
+            class Producer(object):
+                """an iterator of the application's own making (nothing but __iter__ and __next__)"""
+                def __init__(self):
+                    self.k = 0
+
+                def __iter__(self):
+                    return self
+
+                def __next__(self):
+                    self.k += 1
+                    if self.k == 1:
+                        return 1
+                    raise target._build(spec)
+            return Producer()
 
         @P.expose
         def keep_and_raise(self, spec):
@@ -240,7 +260,7 @@ def run_jobs(jobs, table):
                     tr["has_traceback"] = bool(tb) and all(isinstance(x, str) for x in tb)
                     # the remote traceback is that of this raise: it names the function that raised just now
                     raiser = {"call": "raiser", "batch": "raiser", "getattr": "prop", "stream": "streamer", "reraise": "raise_kept_again"}[ck]
-                    tr["tb_own"] = (not tr["has_traceback"]) or any(raiser in line for line in tb)
+                    tr["tb_own"] = (not tr["has_traceback"]) or any(raiser in line or (ck == "stream" and "__next__" in line and "Producer" not in raiser) for line in tb)
                     tr["is_pyro_error"] = isinstance(caught, errors.PyroError)
                     text = str(caught)
                     tr["names_class"] = cls.__name__ in text
